@@ -55,11 +55,14 @@ theorem genCfg_removes : Removes genCfg :=
 
 /-- order of the steps inside `IBCMiddleware.OnAcknowledgementPacket` / `OnTimeoutPacket` (regenerated): the wrapped ICS-20
 application FIRST (it hands the coins back), then the keeper hook (it converts what was handed back), every error
-returned to IBC core.  The model's `refundState` (`refundApp`, then `refundHook` on the resulting balances) and
+returned to IBC core.  Since fix `d4b7c5e` the acknowledgement is decoded ONCE, and rejected unless it re-marshals to the
+relayed bytes, BEFORE the application runs: bytes that carry both arms of the oneof (which the JSON decoder resolves in
+map-iteration order) reach neither the application nor the hook, so the two can no longer disagree about one acknowledgement.  The model's `refundState` (`refundApp`, then `refundHook` on the resulting balances) and
 `settleBy` are written for exactly this order: with the hook in front it would look for a voucher the sender does not hold
 yet. -/
 theorem genCfg_middleware_steps :
-    FxVerif.Gen.C19.ackMiddlewareSteps = ["app:returned", "decode-ack:returned", "decode-data:returned", "hook:returned"] ∧
+    FxVerif.Gen.C19.ackMiddlewareSteps =
+      ["decode-ack:returned", "canonical-ack:returned", "app:returned", "decode-data:returned", "hook:returned"] ∧
     FxVerif.Gen.C19.timeoutMiddlewareSteps = ["app:returned", "decode-data:returned", "hook:returned"] := by decide
 
 /-! ## 1. inbound transfer: exact credit in ERC-20 form, or error acknowledgement and nothing changes -/
